@@ -383,6 +383,23 @@ func (c *Ctx) resolve(rule, key string, pos token.Pos, f *ssa.Function, b *ssa.B
 	if !ok && (rule == "E1.P2-bounds" || rule == "E1.P4-alloc") {
 		ex, ok = env.cfg.exc["fn:"+fnName(f)]
 	}
+	if !ok {
+		// the construct sits in an unexported helper with a single calling function (extract-method): the
+		// reasoned exception of the same construct in that caller carries over
+		if caller := soleCaller(f); caller != nil {
+			k2 := key
+			if i := strings.Index(k2, " @ "); i >= 0 {
+				k2 = k2[:i]
+			}
+			if strings.HasPrefix(k2, fnName(f)+" ") {
+				k2 = fnName(caller) + strings.TrimPrefix(k2, fnName(f))
+				ex, ok = excLookupLoose(env.cfg.exc, k2)
+				if ok {
+					f, b = caller, nil
+				}
+			}
+		}
+	}
 	if ok {
 		if miss := c.guardsMissing(ex, f, b); miss != "" {
 			c.bad(rule, key, pos, badMsg+" -- the exception for this construct relies on a guard that is no longer present: "+miss)
@@ -413,7 +430,7 @@ func (c *Ctx) guardsMissing(ex excEntry, f *ssa.Function, b *ssa.BasicBlock) str
 		g.cond = strings.TrimPrefix(g.cond, "~")
 		for _, bb := range gf.Blocks {
 			ifi := lastIf(bb)
-			if ifi == nil || (shape(ifi.Cond, 3) != g.cond && eraseNames(shape(ifi.Cond, 3)) != eraseNames(g.cond) && eraseNamesAndPrivateFields(shape(ifi.Cond, 3)) != eraseNamesAndPrivateFields(g.cond)) {
+			if ifi == nil || !condMatches(ifi.Cond, g.cond) {
 				continue
 			}
 			// the guard must reject: one of its edges leads (directly) to a return of a non-nil error
@@ -427,6 +444,21 @@ func (c *Ctx) guardsMissing(ex excEntry, f *ssa.Function, b *ssa.BasicBlock) str
 				}
 			}
 			found = true
+		}
+		if !found {
+			// the guard was moved, with the loop or block around it, into an unexported helper that the
+			// function calls: it still runs on every call of the function that reaches past the helper
+			for _, h := range c.helperClosure(gf, 2, func(x *ssa.Function) bool { return plainHelper(x) == nil }) {
+				if h == gf {
+					continue
+				}
+				for _, bb := range h.Blocks {
+					ifi := lastIf(bb)
+					if ifi != nil && condMatches(ifi.Cond, g.cond) && (noReject || rejects(h, bb)) {
+						found = true
+					}
+				}
+			}
 		}
 		if !found {
 			return fmt.Sprintf("%s in %s", g.cond, g.fn)
@@ -1092,4 +1124,53 @@ func (c *Ctx) forwardLinks(f *ssa.Function, env *e1env) int {
 		c.siteObl("E1.P6-forward-refs", key, st.Pos(), f, b, g, env, "referenced index proved strictly greater than the referring index and below the list length: parsed cells form an acyclic graph", "a parsed cell can reference itself or an earlier cell (cyclic structure: hashing/printing would not terminate)")
 	})
 	return n
+}
+
+// condMatches: the branch condition has the shape the exception table names - modulo local names and
+// unexported field names, and modulo the spelling of the comparison: a >= b, b <= a, !(a < b) and the
+// same test with its branches swapped (a < b) are one guard. Which edge rejects is established
+// separately (rejects / dominance), so the polarity of the spelling carries no information here.
+func condMatches(cond ssa.Value, want string) bool {
+	forms := []string{shape(cond, 3)}
+	if bo, ok := cond.(*ssa.BinOp); ok {
+		flip := map[token.Token]token.Token{token.LSS: token.GTR, token.GTR: token.LSS, token.LEQ: token.GEQ, token.GEQ: token.LEQ, token.EQL: token.EQL, token.NEQ: token.NEQ}
+		neg := map[token.Token]token.Token{token.LSS: token.GEQ, token.GEQ: token.LSS, token.GTR: token.LEQ, token.LEQ: token.GTR, token.EQL: token.NEQ, token.NEQ: token.EQL}
+		if _, ok := flip[bo.Op]; ok {
+			x, y := shape(bo.X, 2), shape(bo.Y, 2)
+			forms = append(forms,
+				"("+y+flip[bo.Op].String()+x+")",
+				"("+x+neg[bo.Op].String()+y+")",
+				"("+y+flip[neg[bo.Op]].String()+x+")")
+		}
+	}
+	for _, f := range forms {
+		if f == want || eraseNames(f) == eraseNames(want) || eraseNamesAndPrivateFields(f) == eraseNamesAndPrivateFields(want) || eraseLoose(f) == eraseLoose(want) {
+			return true
+		}
+	}
+	return false
+}
+
+// soleCaller: f is an unexported helper all of whose static call sites lie in one other function.
+func soleCaller(f *ssa.Function) *ssa.Function {
+	h := plainHelper(f)
+	if h == nil {
+		return nil
+	}
+	var caller *ssa.Function
+	for _, site := range gCallSites[h] {
+		p := site.Parent()
+		for p.Parent() != nil {
+			p = p.Parent()
+		}
+		p = origin(p)
+		if p == h {
+			continue
+		}
+		if caller != nil && caller != p {
+			return nil
+		}
+		caller = p
+	}
+	return caller
 }
